@@ -50,7 +50,7 @@ def check_C01(run):
     stage_judge_enum(run, res, "C01", name="judge_families", replay=family_replay("C01"))
     # generated long queries and their near misses
     cases, g = stage_gen_trees(run, checks_parser.QUICK_KINDS if run.tier == "quick" else checks_parser.THOROUGH_KINDS, 2, ws=0, muts=2)
-    res, _, _ = stage_groups(run, cases, observe=True)
+    res, _, _ = stage_groups(run, cases, observe=True, prints=True)
     stage_judge_trees(run, res, "C01", cases)
     run.notes.append("adversarial families (%d shapes) at sizes %s" % (30, sizes))
 
